@@ -10,6 +10,7 @@ import Ruint.Lemmas.Codec.DerTrunc
 import Ruint.Lemmas.Codec.Serde
 import Ruint.Lemmas.Codec.Postgres
 import Ruint.Lemmas.Codec.TableTie
+import Ruint.Lemmas.Codec.GenDer
 /-!
 # C17 — decoders are total on untrusted input: no out-of-range value, canonical decoders reject non-minimal input
 
@@ -189,5 +190,27 @@ theorem bigint_sound (bits : ℕ) (neg : Bool) (mag v : ℕ) (h : Fixed.fromBigI
 theorem gen_scale_decoder_table (bits : ℕ) (bs : List ℕ) :
     Ruint.Codec.TableTie.decT Ruint.Gen.CodecTable.scaleDec bits bs = Ruint.Codec.Scale.decCompact bits bs :=
   Ruint.Codec.TableTie.scale_dec_eq bits bs
+
+/-! ## Tie of the DER content decoders to the source (G)
+
+`Ruint.Gen.der_from_der_slice` / `der_from_der_uint_slice` are regenerated from `src/support/der.rs` on every run: the slice
+patterns with their guards (`[]`, `[0, byte, ..] if *byte < 0x80`, `[0, rest @ ..]`, `[byte, ..] if *byte >= 0x80`, `[0]`,
+`[0, ..]`), their order, the `?`, and the call of the generated `try_from_be_slice` with `ok_or_else`. Declared rewrites: the
+three error constructors of the `der` crate are the codes 0 (length), 1 (non-canonical), 2 (value). They are the models
+`Der.fromDerSlice` / `Der.fromDerUintSlice` that `Der.dec` (and the theorems above) are built on — on every byte string, with
+the accepted value canonical and no panic. -/
+
+theorem gen_from_der_slice_eq (bits : ℕ) (hN : nlimbs bits < 2 ^ 60) (hB : bits + 7 < 2 ^ 64) (bs : List ℕ)
+    (hb : ∀ x ∈ bs, x < 256) (f : ℕ) (hf : nlimbs bits + bs.length + 1 < f) :
+    Ruint.GenDer.toRes (Ruint.Gen.der_from_der_slice f bits (nlimbs bits) bs) = some (Ruint.Codec.Der.fromDerSlice bits bs)
+    ∧ (∀ l, Ruint.Gen.der_from_der_slice f bits (nlimbs bits) bs = some (.ok l) → Ruint.Canon bits l) :=
+  Ruint.GenDer.from_der_slice_eq bits hN hB bs hb f hf
+
+theorem gen_from_der_uint_slice_eq (bits : ℕ) (hN : nlimbs bits < 2 ^ 60) (hB : bits + 7 < 2 ^ 64) (bs : List ℕ)
+    (hb : ∀ x ∈ bs, x < 256) (f : ℕ) (hf : nlimbs bits + bs.length + 1 < f) :
+    Ruint.GenDer.toRes (Ruint.Gen.der_from_der_uint_slice f bits (nlimbs bits) bs)
+      = some (Ruint.Codec.Der.fromDerUintSlice bits bs)
+    ∧ (∀ l, Ruint.Gen.der_from_der_uint_slice f bits (nlimbs bits) bs = some (.ok l) → Ruint.Canon bits l) :=
+  Ruint.GenDer.from_der_uint_slice_eq bits hN hB bs hb f hf
 
 end Ruint.C17
